@@ -168,6 +168,16 @@ func gen(t *rapid.T) Case {
 		}
 		return rs
 	}
+	// In a third of the cases a more specific level does NOT repeat the entries of the levels
+	// above it: a rule keeps its effect at whichever level it is written unless the same
+	// (package, type) entry is overridden further down (entry-wise inheritance).
+	partial := rapid.IntRange(0, 2).Draw(t, "partial-override") == 0
+	cover := func(acc []Rule) []Rule {
+		if partial {
+			return nil
+		}
+		return acc
+	}
 	lv := rapid.SampledFrom([]int{1, 2, 3, 5, 4, 6, 7, 8, 9, 10, 12, 11, 13, 14, 15, 0}).Draw(t, "levels")
 	var acc []Rule
 	if lv&1 != 0 {
@@ -175,15 +185,15 @@ func gen(t *rapid.T) Case {
 		acc = append(acc, c.Root...)
 	}
 	if lv&2 != 0 {
-		c.Package = genRules("pkg", acc)
+		c.Package = genRules("pkg", cover(acc))
 		acc = append(acc, c.Package...)
 	}
 	if c.Listed && lv&4 != 0 {
-		c.Iface = genRules("iface", acc)
+		c.Iface = genRules("iface", cover(acc))
 		acc = append(acc, c.Iface...)
 	}
 	if c.Listed && c.Entries > 0 && lv&8 != 0 {
-		c.Entry = genRules("entry", acc)
+		c.Entry = genRules("entry", cover(acc))
 	}
 	return c
 }
